@@ -184,7 +184,8 @@ def run_core(prop, tier, seed, t0, replay_item=None):
         items = []
         for i, (gname, steps) in enumerate(behs):
             pool = None
-            if prop == "C12":
+            if prop == "C12" or (prop == "C13" and i % 2 == 0):
+                # names that are SQL wildcards / case twins / prefixes of their siblings: where subtree selection goes wrong
                 pool = rng.choice(["like", "like2", "spaces", "nonascii", "prefix", "case", "dots"])
             cfg, cc, pool = conc.concretise(rng, steps, pool=pool, plain_bias=0.7 if tier == "quick" else 0.5,
                                             allow_pgp=(tier == "thorough" or i % 10 == 0), small=(tier == "quick"))
@@ -1030,8 +1031,14 @@ def run_c03(tier, seed, t0, replay_item=None):
         for i, (c, l, e, s) in enumerate(pipelines):
             rs = rng.choice(conc.RECORD_SIZES)
             sizes = conc.SIZE_CLASSES(rs) + [0]
-            for j in range(1 if tier == "quick" else 10):
+            for j in range(3 if tier == "quick" else 10):
                 size = rng.choice(sizes)
+                if j == 2:
+                    size = 33000 + 7 * rs      # more than one 32 KiB copy buffer
+                if j == 1:
+                    # every pipeline also with a content of several records / several copy buffers (encoders whose
+                    # output depends on how their input is chunked must see the same chunks in both passes of a write)
+                    size = rng.choice([rs * 512 + 1, 3 * rs * 512 + 7, 33000 + 7 * rs, 70001])
                 if tier == "quick" and size > 200000:
                     size = rs * 512 + 1
                 ext = SUFFIXY[c] if rng.random() < 0.5 else "f.bin"
